@@ -193,3 +193,17 @@ CHECKS["C20"] = dict(
                "dumper's seek/read is a recorded known finding.",
     design_ref="DESIGN.md 3/C20",
 )
+
+CHECKS["C10"] = dict(
+    category="other",
+    technique="component-wise structural rules over the predicate algebra (operator table as canonical terms, reducer "
+              "identification, re-iterability of stored operands, comparison/slice shape of each checker)",
+    text="Decides the structural half of the documented predicate laws: each operator method builds the combinator the "
+         "documentation names with operands in source order; the reducers are any/all/xor-fold over every operand on the "
+         "same request; no combinator stores a one-shot iterable; identifier strings compare exactly and other strings "
+         "by full regex match; abstract classes and protocols use the subclass test (argument order checked) and other "
+         "classes origin equality; P[...] building, attribute/item equivalence, + order; the tail matcher's length guard, "
+         "pairing, slice and conjunction; bound() conjoins. Pointwise truth on concrete stacks is not evaluated.",
+    level_note="Trusted: Python ast; normalize_type / is_subclass_soft / isabstract / is_protocol meaning.",
+    design_ref="DESIGN.md 3/C10",
+)
